@@ -1977,6 +1977,20 @@ class StateEngine(object):
                         self.event_dispatcher.acknowledge(id)
 
 
+            """
+            This delegate runs from a timer once any retry delay has expired,
+            so check again whether the Branch or Iterator this Task belongs to
+            has been terminated in the meantime (a sibling failed whilst this
+            Task was waiting to be retried), otherwise the Task would still be
+            dispatched and logged after its Map/Parallel state, or even the
+            whole execution, has already failed.
+            """
+            if self.branch_has_terminated(
+                state_type, context, id,
+                ASL.get("TimeoutSeconds", self.execution_ttl)
+            ):
+                return
+
             try:
                 """
                 The Task State (identified by "Type":"Task") causes the interpreter
